@@ -39,6 +39,8 @@ CLAIMED = {
          "Template lists are finite; names and types are finite choices concretised by forking; numerators are unbounded."),
  "C17": ("§6 C17", "CheckProgram then RunProgram inside one symbolic path for valid templates with up to one (thorough: two) mis-declared variable types over all six types, and 47 type-breaking edits; whenever the checker reports no error the run (all integers as numbers/amounts, symbolic balances) does not fail with TypeError, UnboundVariable, UnboundFunction, BadArity or InvalidType; with no diagnostics at all, not with a send-all shape error either.",
          "Template lists are finite; non-numeric variable values take one representative each."),
+ "C18": ("§6 C18", "SCOPED: on each tree the real parser produces for a text of the edit corpus (prefixes, token deletions/duplications, bracket edits, hand-written broken texts) CheckSource, GetSymbols, HoverOn and GotoDefinition run in the VM with the cursor position SYMBOLIC (every line/character) and the checker's map iteration orders symbolic: every reachable panic site is a violation, diagnostics start inside the document and do not end before they start, re-analysis yields the same diagnostics and symbols.",
+         "The text dimension is a bounded corpus (text -> partial tree is ANTLR error recovery, outside the encoding); positions and iteration orders are quantified by the solver."),
 }
 
 NA = {}
